@@ -102,6 +102,10 @@ type caseC10 struct {
 	// Effective marks bodies that take effect in the prepared state but whose meaning for the
 	// authority is a don't-care (empty batches).
 	Effective bool `json:"effective,omitempty"`
+	// ExecMode is the execution mode of the context the handler runs under (0 check, 1 re-check,
+	// 2 simulate, 3 prepare proposal, 4 process proposal, 5 vote extension, 6 verify vote
+	// extension, 7 finalize): who may change state does not depend on it.
+	ExecMode uint8 `json:"exec_mode,omitempty"`
 }
 
 // validBodies are hand-written valid bodies of the known messages (proto JSON without signer).
@@ -219,7 +223,10 @@ func runC10(w *world.World, c caseC10, rec *kit.Recorder) error {
 	if w.App.MsgServiceRouter().Handler(msg) == nil {
 		return fmt.Errorf("RPC %s/%s has no registered handler", info.Service, info.Method)
 	}
-	ctx := c10State(w)
+	ctx := c10State(w).WithExecMode(sdk.ExecMode(c.ExecMode % 8))
+	if rec != nil {
+		rec.Label("exec-mode", fmt.Sprint(c.ExecMode%8))
+	}
 	before := w.StoreDigest(ctx)
 	res := w.Tx(ctx, msg)
 	after := w.StoreDigest(ctx)
@@ -396,7 +403,7 @@ func TestC10Authority(t *testing.T) {
 	rec.Note("RPC surface enumerated from the descriptors (%d): %s", len(rpcs), strings.Join(names, ", "))
 	rapid.Check(t, func(rt *rapid.T) {
 		r := pick(rt, "rpc", rpcs)
-		c := caseC10{Input: r.Input}
+		c := caseC10{Input: r.Input, ExecMode: uint8(pick(rt, "exec-mode", []int{0, 0, 2, 2, 7, 7, 1, 3, 4, 5, 6}))}
 		if vb := bodies[r.Input]; len(vb) > 0 && kit.Chance(rt, "valid-body", 55) {
 			c.Body, c.ValidBody = json.RawMessage(pick(rt, "body", vb)), true
 		} else if eb := effectiveBodies()[r.Input]; len(eb) > 0 && kit.Chance(rt, "effective-body", 40) {
